@@ -158,7 +158,8 @@ def decodeNonDecimal (d : Dec) (s : Str) : Option Int :=
 
 /-! ### decimal numbers -/
 
-/-- `decode_decimal` with `real_cls = float` (or any class accepting exactly what `float` accepts):
+/-- `decode_decimal`: whatever `real_cls` is, the text must satisfy `float()`'s syntax before it is handed
+    to the substitute class (decoder.py, since the C18 fix):
     an `int`, else a real carried as its text. -/
 def decodeDecimal (s : Str) : Option Val :=
   match int10 s with
